@@ -60,6 +60,8 @@ STD_CELLS = [
     # proposal parameter order differs from the model's (only the second parameter is named, the first is appended by default) on a model without exchange symmetry
     ("asym-reordered-reparam", "G2a", {"reparameterisations": {"x1": "default"}}),
     ("asym-reordered-logit-zscore", "G2a", {"reparameterisations": {"x1": "logit", "x0": "zscore"}}),
+    ("logL-minus-2000", "G2o", {}),
+    ("logL-plus-900", "G2p", {}),
     ("tolerance-tight", "G2u", {"stopping": 1e-3, "max_iteration": 1500}),
     ("tolerance-loose", "G2u", {"stopping": 0.5}),
 ]
@@ -67,7 +69,7 @@ STD_CELLS = [
 QUICK_STD = ["default-G2u", "default-G4u", "nonuniform-analytic", "nonuniform-rejection-box-draws", "constrained-prior", "constrained-prior-leaky-uninformed", "flat-direction-prime-prior", "bimodal-default", "ties-nlive50", "ties-analytic", "gw-proposal", "clustering", "augmented-marginalised", "augmented", "no-uninformed",
              "latent-nball", "latent-gaussian", "latent-flow", "radius-worst-point", "radius-min-max", "truncate-log-q", "accumulate-weights", "drawsize-small",
              "reparam-logit", "reparam-inversion-split", "reparam-inversion-duplicate", "reparam-angle", "flow-maf", "flow-nsf", "nlive-10", "nlive-300",
-             "memory", "reset-weights", "uninformed-50", "shrinkage-t", "pool-2", "capped-300", "prior-sampling", "prior-sampling-checkpointing", "asym-reordered-reparam", "asym-reordered-logit-zscore", "tolerance-loose"]
+             "memory", "reset-weights", "uninformed-50", "shrinkage-t", "pool-2", "capped-300", "prior-sampling", "prior-sampling-checkpointing", "asym-reordered-reparam", "asym-reordered-logit-zscore", "logL-minus-2000", "logL-plus-900", "tolerance-loose"]
 
 
 GEN_AXES = dict(
@@ -182,6 +184,11 @@ INS_CELLS = [
     ("ins-edge-peaked-noreparam-clip", "G2e", {"reparameterisation": None, "clip": True, "max_iteration": 8}, None),
     ("ins-edge-peaked-logit-maf", "G2e", {"flow_config": {"ftype": "maf"}, "max_iteration": 8}, None),
     ("ins-gw5", "GW5", {"nlive": 400, "min_samples": 100, "max_iteration": 8}, None),
+    # numerically extreme likelihood magnitudes: exp(logL + logW) under- / overflows in float64
+    ("ins-logL-minus-2000-Zerr", "G2o", {"stopping_criterion": "Z_err", "tolerance": 1.03, "max_iteration": 15}, None),
+    ("ins-logL-minus-2000-default", "G2o", {}, None),
+    ("ins-logL-plus-900-fractional-error", "G2p", {"stopping_criterion": "fractional_error", "tolerance": 0.03, "max_iteration": 15}, None),
+    ("ins-logL-plus-900-Zerr-ess-all", "G2p", {"stopping_criterion": ["Z_err", "ess"], "tolerance": [1.03, 800.0], "check_criteria": "all", "max_iteration": 15}, None),
 ]
 
 # every stopping criterion and alias on its own (thorough tiers)
